@@ -10,7 +10,8 @@ Items, in any order:
   l<hex> / j<hex>          an lcov / JaCoCo input (in argument order)
   y<abs hex>=<text hex>    `read_to_string(abs)` succeeds with that text (any other path: fails)
   h<rel hex>               the order of the file records in the real report
-  n<rel hex>=<fn hex>,…    the order of the function records of that file in the real report
+  n<rel hex>=<fn hex>,…    accepted and IGNORED (before fix 73c9152 the order of the function records
+                           of a file had to be read off the real report; the model now sorts them by name)
   p<path hex>=<tok hex>    covdir `coveragePercent` of the node at names joined by `/` (root = "")
   g<hex>                   coveralls `source_digest`s in document order
   c<hex>                   the coveralls `git` object as printed (read by `jsonParse`)
@@ -110,7 +111,7 @@ def parseRun : List String → Option (Opts × World × List Input)
         cobFill := CobBytes.fillOf it.cobFill }
     let o : Opts :=
       { cfg, branch, excl, isMatch := literalMatch, out, sortTypes
-        hash := HashOrder.ofListing it.recOrder it.fnOrder, pr }
+        hash := HashOrder.ofListing it.recOrder, pr }
     pure (o, { fs, text := fun abs => AList.get? it.texts abs }, it.inputs)
   | _ => none
 
